@@ -98,6 +98,24 @@ type rec struct {
 	entered     chan struct{}
 	enteredOnce sync.Once
 	partner     *rec
+	// overlap phase: the tool handler of this request parks at a gate — it closes `parked` ("I am inside the method
+	// handler") and waits until the harness closes `hold` (bounded by holdCeiling, so that nothing can hang for good).
+	hold       chan struct{}
+	parked     chan struct{}
+	parkedOnce sync.Once
+}
+
+const holdCeiling = 20 * time.Second
+
+func (r *rec) park() {
+	if r == nil || r.hold == nil {
+		return
+	}
+	r.parkedOnce.Do(func() { close(r.parked) })
+	select {
+	case <-r.hold:
+	case <-time.After(holdCeiling):
+	}
 }
 
 func (r *rec) markEntered() {
@@ -436,6 +454,7 @@ func (g *registry) toolHandler(fail bool) func(ctx context.Context, req *mcp.Cal
 		sid, csid := sids(ctx)
 		mods := intList(req.Params.Arguments["mods"])
 		g.record(r, event{T: "h", Mods: mods, CMods: ctxMods(ctx), HasP: true, Tok: tokOf(ctx), Sid: sid, CSid: csid})
+		r.park()
 		if fail {
 			return nil, errors.New("boom-error")
 		}
